@@ -262,3 +262,158 @@ Proof.
   rewrite Hcyc in Hlt. lia.
 Qed.
 End EamPlusLoopfree.
+
+(* ---------- dmm: exit pixels on the cell edge, links to the cell where the trace stops ---------- *)
+From PF Require Import UpscaleD8.
+
+Section DmmLoopfree.
+Variable sds : list nat.
+Variable upa : list Z.
+Variable subncol cs nrow ncol : nat.
+Notation nsub := (length sds).
+Notation nc := (nrow * ncol)%nat.
+Notation sd := (Upscale.sd sds).
+Notation cellof := (cellof subncol cs ncol).
+Notation U t := (nth t upa 0).
+Notation edge t := (cell_edge t subncol cs).
+
+Hypothesis Hcs : (0 < cs)%nat.
+Hypothesis HW : (0 < subncol)%nat.
+Hypothesis Hnc : (subncol <= ncol * cs)%nat.
+Hypothesis Hwf : forall t, (t < nsub)%nat -> (sd t < nsub)%nat -> (sd (sd t) < nsub)%nat.
+Hypothesis Hcell : forall t, (t < nsub)%nat -> (cellof t < nc)%nat.
+Hypothesis Hd8 : forall t, (t < nsub)%nat -> (sd t < nsub)%nat -> in_d8 t (sd t) subncol = true.
+Hypothesis Hpos : forall t, (t < nsub)%nat -> (sd t < nsub)%nat -> 0 < U t.
+Hypothesis Hinc : forall t, (t < nsub)%nat -> (sd t < nsub)%nat -> sd t <> t -> U t < U (sd t).
+
+Notation rep := (repcell sds upa subncol cs nrow ncol (fun t => edge t)).
+
+(* a pixel whose downstream pixel lies in another cell is on the edge of its cell *)
+Lemma band_change x x' : (x' <= x + 1)%nat -> (x <= x' + 1)%nat -> band cs x' <> band cs x ->
+  (off cs x = 0 \/ off cs x + 1 = cs)%nat.
+Proof.
+  intros H1 H2 Hne. destruct (bo cs Hcs x) as [Ex Hox]. destruct (bo cs Hcs x') as [Ex' Hox'].
+  destruct (Nat.eq_dec (off cs x) 0) as [E0|N0]; [left; exact E0|].
+  destruct (Nat.eq_dec (off cs x + 1) cs) as [E1|N1]; [right; exact E1|]. exfalso. apply Hne.
+  assert (Hc : x' = x \/ x' = (x + 1)%nat \/ (x' + 1)%nat = x) by lia.
+  destruct Hc as [->|[->|Hm]]; [reflexivity| |].
+  - destruct (bo_unique cs Hcs (x + 1) (band cs x) (off cs x + 1) ltac:(lia) ltac:(lia)) as [Eb _]. exact Eb.
+  - destruct (bo_unique cs Hcs x' (band cs x) (off cs x - 1) ltac:(lia) ltac:(lia)) as [Eb _]. exact Eb.
+Qed.
+
+Lemma leaving_is_edge t : (t < nsub)%nat -> (sd t < nsub)%nat -> cellof (sd t) <> cellof t -> edge t = true.
+Proof.
+  intros Ht Hd Hne. destruct (pixel_step sds subncol cs ncol Hcs HW Hnc Hd8 t Ht Hd) as (P1 & P2 & P3 & P4).
+  rewrite !cellof_eq in Hne.
+  assert (Hb : band cs (sd t / subncol) <> band cs (t / subncol) \/ band cs (sd t mod subncol) <> band cs (t mod subncol)).
+  { destruct (Nat.eq_dec (band cs (sd t / subncol)) (band cs (t / subncol))) as [E1|N1]; [|left; exact N1].
+    destruct (Nat.eq_dec (band cs (sd t mod subncol)) (band cs (t mod subncol))) as [E2|N2]; [|right; exact N2].
+    exfalso. apply Hne. rewrite E1, E2. reflexivity. }
+  unfold cell_edge. change ((t / subncol) mod cs)%nat with (off cs (t / subncol)). change ((t mod subncol) mod cs)%nat with (off cs (t mod subncol)).
+  destruct Hb as [Hb|Hb].
+  - destruct (band_change _ _ P1 P2 Hb) as [E|E]; [rewrite E; reflexivity|].
+    apply orb_true_iff. left. apply orb_true_iff. right. apply Nat.eqb_eq. exact E.
+  - destruct (band_change _ _ P3 P4 Hb) as [E|E]; [rewrite E; rewrite orb_true_r; reflexivity|].
+    apply orb_true_iff. right. apply Nat.eqb_eq. exact E.
+Qed.
+
+(* from every pixel of the network the flow path reaches, inside the same cell, a pit or a pixel on the cell edge *)
+Lemma reach_candidate k : forall p, (p < nsub)%nat -> (sd p < nsub)%nat -> (forall t, (t < nsub)%nat -> U t <= U p + Z.of_nat k) ->
+  exists c, candidate sds (fun t => edge t) c /\ cellof c = cellof p /\ U p <= U c.
+Proof.
+  induction k as [|k IH]; intros p Hp Hd HB.
+  - (* no larger value exists: p is a pit *)
+    destruct (Nat.eq_dec (sd p) p) as [E|E].
+    + exists p. split; [split; [exact Hp|split; [exact Hd|left; exact E]]|split; [reflexivity|lia]].
+    + pose proof (Hinc p Hp Hd E). pose proof (HB (sd p) Hd). lia.
+  - destruct (Nat.eq_dec (sd p) p) as [E|E].
+    + exists p. split; [split; [exact Hp|split; [exact Hd|left; exact E]]|split; [reflexivity|lia]].
+    + destruct (Nat.eq_dec (cellof (sd p)) (cellof p)) as [Ec|Ec].
+      * pose proof (Hinc p Hp Hd E) as Hup.
+        destruct (IH (sd p) Hd (Hwf p Hp Hd) ltac:(intros t Ht; pose proof (HB t Ht); lia)) as (c & Hc1 & Hc2 & Hc3).
+        exists c. split; [exact Hc1|]. split; [congruence|lia].
+      * exists p. split; [split; [exact Hp|split; [exact Hd|right; apply leaving_is_edge; auto]]|split; [reflexivity|lia]].
+Qed.
+
+Lemma upa_bounded : exists B, forall t, (t < nsub)%nat -> U t <= B.
+Proof.
+  exists (fold_right Z.max 0 upa). intros t _. destruct (Nat.lt_ge_cases t (length upa)) as [H|H].
+  - assert (G : forall l i, (i < length l)%nat -> nth i l 0 <= fold_right Z.max 0 l).
+    { induction l as [|a l IH]; intros i Hi; [simpl in Hi; lia|]. destruct i as [|i]; cbn [nth fold_right]; [lia|].
+      specialize (IH i ltac:(simpl in Hi; lia)). lia. }
+    apply G. exact H.
+  - rewrite nth_overflow by exact H. assert (G : forall l, 0 <= fold_right Z.max 0 l) by (induction l; cbn [fold_right]; lia). apply G.
+Qed.
+
+(* where the dmm trace stops: at the start itself (only if that is the reported cell) or strictly downstream *)
+Lemma dmm_walk_up fuel : forall idx0 s0 cur idx r, (cur < nsub)%nat -> (sd cur < nsub)%nat -> idx = cellof cur ->
+  dmm_walk sds subncol cs nrow ncol fuel idx0 s0 cur idx = r -> (r < nc)%nat ->
+  exists p, (p < nsub)%nat /\ (sd p < nsub)%nat /\ cellof p = r /\ (p = cur \/ U cur < U p).
+Proof.
+  induction fuel as [|f IH]; intros idx0 s0 cur idx r Hc Hd Hi Hw Hr; cbn [dmm_walk] in Hw; [unfold ERR in Hw; lia|].
+  destruct (Nat.eqb_spec (sd cur) cur) as [Hpit|Hnp]; [exists cur; subst idx; repeat split; auto|].
+  destruct (negb (cellof (sd cur) =? idx0)%nat && dmm_outside subncol cs ncol idx0 s0 cur);
+    [exists cur; subst idx; repeat split; auto|].
+  destruct (IH idx0 s0 (sd cur) (cellof (sd cur)) r Hd (Hwf cur Hc Hd) eq_refl Hw Hr) as (p & A & B & C & D).
+  exists p. repeat split; auto. right. pose proof (Hinc cur Hc Hd Hnp). destruct D as [->|D]; lia.
+Qed.
+
+Theorem dmm_link_increases idx0 : (idx0 < nc)%nat ->
+  let s := nth idx0 rep nsub in (s < nsub)%nat ->
+  let r := dmm_walk sds subncol cs nrow ncol (S nsub) idx0 s s idx0 in (r < nc)%nat ->
+  r = idx0 \/ ((nth r rep nsub < nsub)%nat /\ U s < U (nth r rep nsub)).
+Proof.
+  intros Hi s Hs r Hr.
+  destruct (repcell_spec sds upa subncol cs nrow ncol (fun t => edge t)) as (_ & Hin & Hex).
+  destruct (Hin idx0 Hi) as [E|[[_ [Hds _]] [Hc _]]]; [fold s in E; lia|]. fold s in Hds, Hc.
+  destruct (dmm_walk_up (S nsub) idx0 s s idx0 r Hs Hds (eq_sym Hc) eq_refl Hr) as (p & Hp & Hdp & Hcp & Hup).
+  destruct Hup as [->|Hup]; [left; congruence|]. right.
+  destruct upa_bounded as [B HB].
+  destruct (reach_candidate (Z.to_nat (B - U p)) p Hp Hdp ltac:(intros t Ht; pose proof (HB t Ht); pose proof (HB p Hp); lia))
+    as (c & Hcand & Hcc & Huc).
+  destruct (Hex c Hcand ltac:(rewrite Hcc, Hcp; exact Hr) ltac:(destruct Hcand as (C1 & C2 & _); apply Hpos; auto)) as [H1 H2].
+  rewrite Hcc, Hcp in H1, H2. cbv zeta in H1, H2. split; [exact H1|lia].
+Qed.
+
+Notation cdsd := (dmm_nextidx sds subncol cs nrow ncol rep).
+Definition dnext (idx : nat) : nat := nth idx cdsd nc.
+Fixpoint diter (k : nat) (idx : nat) : nat := match k with O => idx | S k' => diter k' (dnext idx) end.
+Definition dkey (idx : nat) : Z := U (nth idx rep nsub).
+
+Lemma dnext_eq idx : (idx < nc)%nat -> dnext idx =
+  let s := nth idx rep nsub in if (nsub <=? s)%nat then nc else dmm_walk sds subncol cs nrow ncol (S nsub) idx s s idx.
+Proof.
+  intros Hi. unfold dnext, dmm_nextidx, per_cell.
+  rewrite (nth_indep _ nc ((fun idx0 => let s := nth idx0 rep nsub in if (nsub <=? s)%nat then nc else dmm_walk sds subncol cs nrow ncol (S nsub) idx0 s s idx0) 0%nat))
+    by (rewrite map_length, seq_length; exact Hi).
+  rewrite (map_nth (fun idx0 => let s := nth idx0 rep nsub in if (nsub <=? s)%nat then nc else dmm_walk sds subncol cs nrow ncol (S nsub) idx0 s s idx0)).
+  rewrite seq_nth by exact Hi. reflexivity.
+Qed.
+
+Lemma dchain_key k : forall idx, (idx < nc)%nat -> (nth idx rep nsub < nsub)%nat ->
+  (forall j, (j <= k)%nat -> (diter j idx < nc)%nat) ->
+  (exists j, (j < k)%nat /\ dnext (diter j idx) = diter j idx) \/ (k = 0%nat) \/
+  dkey idx < dkey (diter k idx) /\ (nth (diter k idx) rep nsub < nsub)%nat.
+Proof.
+  induction k as [|k IH]; intros idx Hi Hs Hin; [right; left; reflexivity|].
+  pose proof (Hin 1%nat ltac:(lia)) as H1. cbn [diter] in H1.
+  pose proof (dnext_eq idx Hi) as Hce. cbv zeta in Hce.
+  assert (Hl : (nsub <=? nth idx rep nsub)%nat = false) by (apply Nat.leb_gt; exact Hs). rewrite Hl in Hce.
+  destruct (dmm_link_increases idx Hi Hs ltac:(rewrite <- Hce; exact H1)) as [Hself|[Hs' Hk']].
+  - left. exists 0%nat. split; [lia|]. cbn [diter]. rewrite Hce. exact Hself.
+  - rewrite <- Hce in Hs', Hk'.
+    destruct (IH (dnext idx) H1 Hs' ltac:(intros j Hj; apply (Hin (S j)); lia)) as [[j [Hj Hp]]|[->|[Hkk Hss]]].
+    + left. exists (S j). split; [lia|exact Hp].
+    + right. right. cbn [diter]. unfold dkey. split; [exact Hk'|exact Hs'].
+    + right. right. cbn [diter]. split; [unfold dkey in *; lia|exact Hss].
+Qed.
+
+Theorem dmm_loopfree idx k : (idx < nc)%nat -> (nth idx rep nsub < nsub)%nat -> (1 <= k)%nat ->
+  (forall j, (j <= k)%nat -> (diter j idx < nc)%nat) -> diter k idx = idx ->
+  exists j, (j < k)%nat /\ dnext (diter j idx) = diter j idx.
+Proof.
+  intros Hi Hs Hk Hin Hcyc.
+  destruct (dchain_key k idx Hi Hs Hin) as [H|[->|[Hlt _]]]; [exact H|lia|].
+  rewrite Hcyc in Hlt. lia.
+Qed.
+End DmmLoopfree.
